@@ -136,6 +136,7 @@ func runC03(c *core.Ctx) {
 	c03R3(c, "C03.R3")
 	c03R4(c, "C03.R4")
 	c03R5(c)
+	c03R6(c)
 }
 
 // authorizerImpls returns the Authorize methods of production implementers of service.Authorizer.
@@ -659,5 +660,136 @@ func c03R5(c *core.Ctx) {
 			}
 		})
 		c.Check(okBit, rule, fname+":level bit 22-idx", f.Pos(), "level idx is bit 22-idx of the path", name+" does not address level idx as bit 22-idx of the bit path")
+	}
+}
+
+// byteMapOfGetter: index -> left shift, for a getter composing k[i]<<s | ...
+func byteMapOfGetter(f *ssa.Function, v ssa.Value, out map[int64]int64, shift int64, depth int) bool {
+	if depth > 12 {
+		return false
+	}
+	v = eng.StripConv(v)
+	switch x := v.(type) {
+	case *ssa.BinOp:
+		switch x.Op {
+		case token.OR, token.ADD:
+			return byteMapOfGetter(f, x.X, out, shift, depth+1) && byteMapOfGetter(f, x.Y, out, shift, depth+1)
+		case token.SHL:
+			k, ok := eng.ConstInt(x.Y)
+			return ok && byteMapOfGetter(f, x.X, out, shift+k, depth+1)
+		}
+	case *ssa.UnOp:
+		if ia, ok := x.X.(*ssa.IndexAddr); ok && ia.X == f.Params[0] {
+			if i, isC := eng.ConstInt(ia.Index); isC {
+				out[i] = shift
+				return true
+			}
+		}
+	}
+	return false
+}
+
+// c03R6: getter/setter pairs of security.Key agree on byte positions and byte order.
+func c03R6(c *core.Ctx) {
+	rule := "C03.R6"
+	c.Rule(rule, "key layout agreement: for each (getter, setter) pair of security.Key the setter stores byte(value>>s) at exactly the index the getter reads with <<s: Salt/SetSalt [0:2], Master/SetMaster [2:4], Contract/SetContract [4:8], Signature/SetSignature [8:12], Permissions/SetPermissions [15]; Expires/SetExpires [20:24]; SetTarget writes path [12:15] and hash [16:20] which ValidateChannel reads; the ranges are pairwise disjoint", 7)
+	pairs := []struct {
+		get, set string
+		lo, hi   int64
+	}{{"Salt", "SetSalt", 0, 2}, {"Master", "SetMaster", 2, 4}, {"Contract", "SetContract", 4, 8}, {"Signature", "SetSignature", 8, 12}}
+	for _, pr := range pairs {
+		g := fn(c, rule, "internal/security", "Key", pr.get)
+		s := fn(c, rule, "internal/security", "Key", pr.set)
+		if g == nil || s == nil {
+			continue
+		}
+		gm := map[int64]int64{}
+		okG := true
+		for _, rv := range eng.ResultValues(g, 0) {
+			if !byteMapOfGetter(g, rv, gm, 0, 0) {
+				okG = false
+			}
+		}
+		sm := map[int64]int64{}
+		eng.Instrs(s, func(in ssa.Instruction) {
+			st, ok := in.(*ssa.Store)
+			if !ok {
+				return
+			}
+			ia, ok := st.Addr.(*ssa.IndexAddr)
+			if !ok || ia.X != s.Params[0] {
+				return
+			}
+			i, isC := eng.ConstInt(ia.Index)
+			if !isC {
+				return
+			}
+			v := eng.StripConv(st.Val)
+			sh := int64(0)
+			if bo, isB := v.(*ssa.BinOp); isB && bo.Op == token.SHR {
+				sh, _ = eng.ConstInt(bo.Y)
+				v = eng.StripConv(bo.X)
+			}
+			if v == s.Params[1] {
+				sm[i] = sh
+			} else {
+				sm[i] = -1
+			}
+		})
+		same := okG && len(gm) == int(pr.hi-pr.lo) && len(sm) == len(gm)
+		for i := pr.lo; i < pr.hi; i++ {
+			gs, ok1 := gm[i]
+			ss, ok2 := sm[i]
+			if !ok1 || !ok2 || gs != ss || gs != (pr.hi-1-i)*8 {
+				same = false
+			}
+		}
+		c.Check(same, rule, pr.get+"/"+pr.set+":bytes and order", g.Pos(), fmt.Sprintf("both use bytes [%d:%d] big-endian", pr.lo, pr.hi), fmt.Sprintf("%s reads %v (index->shift) but %s writes %v; expected bytes [%d:%d] big-endian on both sides", pr.get, gm, pr.set, sm, pr.lo, pr.hi))
+	}
+	// Expires / SetExpires and SetTarget / ValidateChannel: index sets
+	idxSet := func(f *ssa.Function, stores bool) map[int64]bool {
+		out := map[int64]bool{}
+		eng.Instrs(f, func(in ssa.Instruction) {
+			ia, ok := in.(*ssa.IndexAddr)
+			if !ok || ia.X != f.Params[0] {
+				return
+			}
+			i, isC := eng.ConstInt(ia.Index)
+			if !isC {
+				return
+			}
+			isStore := false
+			if refs := ia.Referrers(); refs != nil {
+				for _, r := range *refs {
+					if st, isSt := r.(*ssa.Store); isSt && st.Addr == ia {
+						isStore = true
+					}
+				}
+			}
+			if isStore == stores {
+				out[i] = true
+			}
+		})
+		return out
+	}
+	want := func(m map[int64]bool, idx ...int64) bool {
+		if len(m) != len(idx) {
+			return false
+		}
+		for _, i := range idx {
+			if !m[i] {
+				return false
+			}
+		}
+		return true
+	}
+	if g, s := fn(c, rule, "internal/security", "Key", "Expires"), fn(c, rule, "internal/security", "Key", "SetExpires"); g != nil && s != nil {
+		c.Check(want(idxSet(g, false), 20, 21, 22, 23) && want(idxSet(s, true), 20, 21, 22, 23), rule, "Expires/SetExpires:bytes", g.Pos(), "expiry lives in bytes [20:24]", "Expires/SetExpires do not both use exactly bytes [20:24]")
+	}
+	if s, v := fn(c, rule, "internal/security", "Key", "SetTarget"), fn(c, rule, "internal/security", "Key", "ValidateChannel"); s != nil && v != nil {
+		c.Check(want(idxSet(s, true), 12, 13, 14, 16, 17, 18, 19) && want(idxSet(v, false), 12, 13, 14, 16, 17, 18, 19), rule, "SetTarget/ValidateChannel:bytes", s.Pos(), "bit path in [12:15], target hash in [16:20] on both sides", "SetTarget and ValidateChannel do not use the same bytes for bit path [12:15] and target hash [16:20]")
+	}
+	if g, s := fn(c, rule, "internal/security", "Key", "Permissions"), fn(c, rule, "internal/security", "Key", "SetPermissions"); g != nil && s != nil {
+		c.Check(want(idxSet(g, false), 15) && want(idxSet(s, true), 15), rule, "Permissions/SetPermissions:byte", g.Pos(), "permissions live in byte 15", "Permissions/SetPermissions do not both use exactly byte 15")
 	}
 }
